@@ -232,7 +232,7 @@ op("twice_repart_unknown", "any", lambda x: (lambda y: _concat([y.repartition(np
 op("twice_repart_fewer", "any", lambda x: _concat([x.repartition(npartitions=2), x.repartition(npartitions=1)]), pd=lambda x: _concat([x, x]), tier=2, tags=("twice",))
 op("twice_shuffle", "df", lambda x: _concat([x.shuffle("a"), x.shuffle("d")]), pd=lambda x: _concat([x, x]), order="lose", tier=2, tags=("twice",))
 op("twice_shuffle_np", "df", lambda x: _concat([x.shuffle("a", npartitions=2), x.shuffle("a", npartitions=4)]), pd=lambda x: _concat([x, x]), order="lose", tier=2, tags=("twice",))
-op("twice_sort", "df", lambda x: _concat([x.sort_values("u"), x.sort_values("u", ascending=False)]), tier=2, tags=("twice",))
+op("twice_sort", "df", lambda x: _concat([x.sort_values("u"), x.sort_values("u", ascending=False)]), order="sorted", tier=2, tags=("twice", "by_u"))
 op("twice_rolling", "df", lambda x: x["a"].rolling(2).sum() + x["a"].rolling(3).sum(), osens=True, tier=2, tags=("twice",))
 op("twice_merge", "df", lambda x: _concat([x.merge(_T2(x), on="a", how="inner"), x.merge(_T2(x), on="a", how="left")]), order="lose", labels="lose", tier=2, tags=("twice",))
 op("twice_head", "df", lambda x: _concat([_head(x, 2), _head(x, 3)]), pd=lambda x: _concat([x.head(2), x.head(3)]), osens=True, tier=2, tags=("twice",))
@@ -241,6 +241,10 @@ op("twice_reduce", "df", lambda x: x["b"].sum(split_every=2) + x["u"].sum(split_
 op("twice_dropdup", "df", lambda x: _concat([x.drop_duplicates(subset=["a"])[["a"]], x.drop_duplicates(subset=["d"])[["d"]]]), order="lose", labels="lose", tier=2, tags=("twice",))
 op("twice_gb", "df", lambda x: _concat([x.groupby("a")["b"].sum().to_frame(), x.groupby("d")["b"].sum().to_frame()]), order="lose", labels="new", tier=2, tags=("twice",))
 op("twice_cum", "df", lambda x: x["b"].cumsum() + x["b"].cummax(), osens=True, tier=2, tags=("twice",))
+op("scalar_chain", "df", lambda x: x["a"] * ((x["b"].sum() + 1) * 2 - 3) + x["u"] * ((x["u"].max() + 1) * 2), tier=2, tags=("nested",))
+op("scalar_chain2", "df", lambda x: (x[["a", "u"]] - (x["a"].min() * 2 + 1)) / ((x["u"].max() - 1) * 0.5 + 2), tier=2, tags=("nested",))
+op("reopt_combine", "df", lambda x: ((x["a"] + 1) * 2).optimize() - x["b"] * 3 if not isinstance(x, pd.DataFrame) else ((x["a"] + 1) * 2) - x["b"] * 3, tier=2, tags=("nested",))
+op("reopt_filter", "df", lambda x: (lambda o: o[o["a"] > 1][["a", "b"]])(x.assign(z=x["a"] + 1).optimize()) if not isinstance(x, pd.DataFrame) else x.assign(z=x["a"] + 1)[x["a"] > 1][["a", "b"]], tier=2, tags=("nested",))
 op("twice_partitions", "any", lambda x: _concat([x.partitions[[0]], x.partitions[[1]]]), pd=None, tags=("twice", "daskonly", "psens"), tier=2)
 
 
